@@ -619,10 +619,14 @@ func c18MakeTask(t *tape.Tape, p *c18Pool) c18Task {
 		if t.Bool() {
 			shared = p.mdPaths[t.Intn(len(p.mdPaths))]
 		}
+		nilAdjs := t.Chance(1, 4)
 		return c18Task{name: "mdicons.ParsePath (opacity blend, circles) -> Encoder", run: func() string {
 			var e encode.Encoder
 			e.Reset(ivg.ViewBox{MinX: -24, MinY: -24, MaxX: 24, MaxY: 24}, ivg.DefaultPalette)
 			adjs := map[float32]uint8{}
+			if nilAdjs {
+				adjs = nil // a caller without an opacity table (fine for opaque paths; the library panics on others, alone and interleaved alike)
+			}
 			path := &mdicons.Path{D: d, Opacity: &op}
 			if shared != nil {
 				path = shared // the same parsed path converted by several pipelines
